@@ -28,6 +28,9 @@ pub struct ServerCase {
     pub history: u8,
     pub initial_rotations: u8,
     pub key_seed: u64,
+    /// key ids of the server's key set start here (a stored key file may carry any offset)
+    #[serde(default)]
+    pub id_offset: u32,
     pub reqs: Vec<ReqItem>,
 }
 
@@ -140,6 +143,8 @@ pub enum EfSpec {
     RefIdReq { offset: u16, len: u16 },
     RefIdResp { body: Vec<u8> },
     ExtraDraftId(Vec<u8>),
+    /// a raw NTS authenticator field: lengths as given, not necessarily consistent
+    RawAuth { nonce_len: u16, ct_len: u16, body: Vec<u8>, odd: bool },
 }
 
 #[derive(Debug, Clone, Serialize, Deserialize, PartialEq)]
@@ -377,6 +382,20 @@ fn ef_bytes(
             mk(EF_REFID_RESP, body)
         }
         EfSpec::ExtraDraftId(v) => mk(EF_DRAFT_ID, v),
+        EfSpec::RawAuth { nonce_len, ct_len, body, odd } => {
+            let mut value = Vec::new();
+            value.extend_from_slice(&nonce_len.to_be_bytes());
+            value.extend_from_slice(&ct_len.to_be_bytes());
+            value.extend_from_slice(body);
+            if v5 && *odd {
+                // NTPv5 allows a declared length that is not a multiple of four
+                let mut o = Vec::new();
+                RawEf::v5(EF_AUTH, &value).encode(&mut o);
+                o
+            } else {
+                mk(EF_AUTH, &value)
+            }
+        }
     }
 }
 
@@ -627,7 +646,14 @@ pub fn run_case(case: &ServerCase, with_large: bool) -> World {
         accepted_versions: versions(case.cfg.accepted),
     };
     let info = make_info(&case.state, case.key_seed);
-    let mut provider = KeySetProvider::dangerous_new_deterministic(case.history as usize);
+    let mut provider = if case.id_offset == 0 {
+        KeySetProvider::dangerous_new_deterministic(case.history as usize)
+    } else {
+        // as restored from a key file whose ids are about to wrap
+        let keys = vec![crate::w_keys::bytes(case.key_seed ^ 0x1d0f, 64)];
+        let img = crate::w_keys::image(1_700_000_000, case.id_offset, 0, 1, &keys);
+        crate::w_keys::load(&img, case.history as usize).expect("well-formed key file").0
+    };
     let mut keysets = vec![provider.get()];
     for _ in 0..case.initial_rotations {
         provider.rotate();
@@ -878,6 +904,8 @@ pub fn ef_strategy(allow_cookie: bool) -> BoxedStrategy<EfSpec> {
             .prop_map(|(offset, len)| EfSpec::RefIdReq { offset, len }),
         1 => bytes(0..40).prop_map(|body| EfSpec::RefIdResp { body }),
         1 => bytes(0..30).prop_map(EfSpec::ExtraDraftId),
+        2 => (prop_oneof![0u16..40, any::<u16>()], prop_oneof![0u16..60, any::<u16>()], bytes(0..48), any::<bool>())
+            .prop_map(|(nonce_len, ct_len, body, odd)| EfSpec::RawAuth { nonce_len, ct_len, body, odd }),
     ];
     if allow_cookie {
         prop_oneof![5 => base, 2 => cookie.prop_map(EfSpec::Cookie)].boxed()
@@ -1070,18 +1098,20 @@ pub fn case_strategy(max_reqs: usize) -> BoxedStrategy<ServerCase> {
         0u8..4,
         0u8..4,
         any::<u64>(),
+        prop_oneof![3 => Just(0u32), 1 => Just(u32::MAX), 1 => (u32::MAX - 3)..=u32::MAX, 1 => any::<u32>()],
         prop::collection::vec(
             (addr_strategy(), any::<u64>(), any::<u64>(), prop_oneof![9 => Just(false), 1 => Just(true)], req_strategy())
                 .prop_map(|(addr, recv_ts, now_ts, rotate_before, req)| ReqItem { addr, recv_ts, now_ts, rotate_before, req }),
             1..=max_reqs,
         ),
     )
-        .prop_map(|(cfg, state, history, initial_rotations, key_seed, reqs)| ServerCase {
+        .prop_map(|(cfg, state, history, initial_rotations, key_seed, id_offset, reqs)| ServerCase {
             cfg,
             state,
             history,
             initial_rotations,
             key_seed,
+            id_offset,
             reqs,
         })
         .boxed()
